@@ -55,3 +55,63 @@ Theorem C03_struct_check_sound : forall out, struct_check out = [] ->
   Forall (fun p => (3 <= length p)%nat /\ no_cyc_dup p = true) out.
 Proof. exact struct_check_sound. Qed.
 Print Assumptions C03_struct_check_sound.
+
+(* ------------------------------------------------------------------ bounding box clause: the leaf functions
+   "(for coordinates up to 2^52) every solution vertex lies inside the bounding box of the inputs": a solution vertex is
+   an input vertex or a coordinate / point produced by one of three leaf functions -- TopX (x of an edge at a scanline),
+   GetClosestPointOnSegment, GetSegmentIntersectPt -- from input-derived edges.  The theorems below are about the
+   definitions REGENERATED from the C++ by cpp2v (coq/gen/Gen_engine.v, coq/gen/Gen_core.v); proofs in
+   proofs/Core_bbox.v (binary64 monotonicity / error arguments, Flocq).  [pt_le B p] := |p.x| <= B /\ |p.y| <= B;
+   [in_seg_box a b p] := p in the bounding box of a, b; [coords_le B a b c d] := all four points pt_le B. *)
+From Clip Require Import base.FloatModel base.CSem gen.Gen_core gen.Gen_engine model.CoreSpec proofs.Core_isect proofs.Core_bbox.
+Local Open Scope Z_scope.
+
+(* TopX: for |coordinates| <= 2^52 (the property's bound) and a scanline between the end points of the edge, the
+   result lies between the abscissae of the end points.  Horizontal edges need no exclusion: there the scanline
+   equals top.y and the first early return answers; dx = +-DBL_MAX is never multiplied. *)
+Theorem C03_topx_in_bbox :
+  forall (ae : Active) (currentY : Z),
+  dx ae = GetDx (bot ae) (top ae) -> pt_le (2 ^ 52) (bot ae) -> pt_le (2 ^ 52) (top ae) ->
+  (py (top ae) <= currentY <= py (bot ae) \/ py (bot ae) <= currentY <= py (top ae)) ->
+  Z.min (px (bot ae)) (px (top ae)) <= TopX ae currentY <= Z.max (px (bot ae)) (px (top ae)).
+Proof. exact topx_in_bbox. Qed.
+Print Assumptions C03_topx_in_bbox.
+
+(* GetClosestPointOnSegment: for |coordinates| <= 2^52 the result lies in the bounding box of the segment *)
+Theorem C03_closest_point_in_bbox :
+  forall offPt seg1 seg2,
+  pt_le (2 ^ 52) offPt -> pt_le (2 ^ 52) seg1 -> pt_le (2 ^ 52) seg2 ->
+  in_seg_box seg1 seg2 (GetClosestPointOnSegment offPt seg1 seg2) = true.
+Proof. exact closest_point_in_bbox. Qed.
+Print Assumptions C03_closest_point_in_bbox.
+
+(* GetSegmentIntersectPt, default (truncating) variant: for |coordinates| <= 2^52 and ANY two segments, whenever it
+   returns true the point lies in the bounding box of the first segment (t is clamped to [0,1], roundings are monotone) *)
+Theorem C03_isect_in_bbox :
+  forall a b c d ip,
+  coords_le (2 ^ 52) a b c d -> fst (GetSegmentIntersectPt_lo a b c d ip) = true ->
+  in_seg_box a b (snd (GetSegmentIntersectPt_lo a b c d ip)) = true.
+Proof. exact isect_lo_in_box. Qed.
+Print Assumptions C03_isect_in_bbox.
+
+(* All leaves.  Partial: (1) the CLIPPER2_HI_PRECISION variant of GetSegmentIntersectPt only for properly crossing
+   segments with |coordinates| <= 2^25 instead of 2^52 -- it does not clamp, and beyond 2^25 its determinant is inexact
+   and the result can leave the box (C18 known finding isect.inaccurate.hi.gt2p25); the default build reaches 2^52 for
+   all three leaves; (2) that every solution vertex is an input vertex or a result of these leaves on edges inside the
+   input bounding box is validated by checks/C03.py, not proved. *)
+Theorem C03_leaf_in_bbox_partial :
+  (forall (ae : Active) (currentY : Z),
+     dx ae = GetDx (bot ae) (top ae) -> pt_le (2 ^ 52) (bot ae) -> pt_le (2 ^ 52) (top ae) ->
+     (py (top ae) <= currentY <= py (bot ae) \/ py (bot ae) <= currentY <= py (top ae)) ->
+     Z.min (px (bot ae)) (px (top ae)) <= TopX ae currentY <= Z.max (px (bot ae)) (px (top ae))) /\
+  (forall offPt seg1 seg2,
+     pt_le (2 ^ 52) offPt -> pt_le (2 ^ 52) seg1 -> pt_le (2 ^ 52) seg2 ->
+     in_seg_box seg1 seg2 (GetClosestPointOnSegment offPt seg1 seg2) = true) /\
+  (forall a b c d ip,
+     coords_le (2 ^ 52) a b c d -> fst (GetSegmentIntersectPt_lo a b c d ip) = true ->
+     in_seg_box a b (snd (GetSegmentIntersectPt_lo a b c d ip)) = true) /\
+  (forall a b c d ip,
+     coords_le (2 ^ 25) a b c d -> properly_cross a b c d = true ->
+     fst (GetSegmentIntersectPt_hi a b c d ip) = true /\ in_seg_box a b (snd (GetSegmentIntersectPt_hi a b c d ip)) = true).
+Proof. exact leaf_in_bbox. Qed.
+Print Assumptions C03_leaf_in_bbox_partial.
